@@ -18,7 +18,7 @@ try:
     meta=json.load(open(os.path.join(src,'meta.json')))
 except Exception as e:
     meta={"note":"meta.json of the sub-agent was not valid JSON: %s"%e}
-log=open(os.path.join(src,'eval.log')).read() if os.path.exists(os.path.join(src,'eval.log')) else ''
+log=open(os.path.join(src,'eval.log'),errors='replace').read() if os.path.exists(os.path.join(src,'eval.log')) else ''
 viol=[l for l in log.splitlines() if l.startswith('VIOLATION') or l.startswith('RESULT') or l.startswith('  what:')][:12]
 meta['evaluation']={
   "confirmed_here":"patch applied in a scratch worktree of /repo HEAD: go build ./... ok; go test ./... unchanged (only the baseline's always-failing t2 TestEmptyKeyword); demonstration of the sub-agent fails with / passes without the change (recorded by the sub-agent, outputs in demo/)",
